@@ -31,6 +31,7 @@ Ev == JTrace[l]
 tvars == <<l, abs, pend, scan>>
 
 Mode == IF "MODE" \in DOMAIN IOEnv THEN IOEnv.MODE ELSE "all"
+CheckShape == Mode \in {"all", "C10"}
 CheckLin == Mode \in {"all", "C03"}
 CheckScan == Mode \in {"all", "C09"}
 CheckMem == Mode \in {"all", "C04"}
@@ -38,6 +39,12 @@ CheckLive == Mode \in {"all", "C14"}
 
 AllT == 1..8
 NoOp == [op |-> "none"]
+
+\* the declarative radix-tree shape of a key set (C10 after concurrent phases)
+Shape == INSTANCE ArtShape WITH Caps <- <<4, 16, 48, 256>>
+RECURSIVE BytesOf(_, _)
+BytesOf(k, n) == IF n = 0 THEN <<>> ELSE Append(BytesOf(k \div 256, n - 1), k % 256)
+Key8(k) == BytesOf(k, 8)
 NoScan == [on |-> FALSE]
 
 TInit == /\ TLCSet(1, 0)
@@ -152,9 +159,26 @@ Uaf == /\ Ev.e \in {"uaf", "dblfree"} /\ ~CheckMem
 Final == /\ Ev.e = "final"
          /\ \A t \in AllT : pend[t].op = "none" /\ ~scan[t].on
          \* the final content is the abstract map (C03)
-         /\ CheckLin => MapOf(Ev.keys, Ev.vals) = abs /\ Len(Ev.keys) = Cardinality(DOMAIN abs)
+         /\ CheckLin => /\ MapOf(Ev.keys, Ev.vals) = abs /\ Len(Ev.keys) = Cardinality(DOMAIN abs)
+                        /\ Ev.back = Len(Ev.keys)          \* the reverse scan sees as many entries
+                        /\ \A i \in 1..(Len(Ev.keys) - 1) : Ev.keys[i] < Ev.keys[i + 1]
+                        \* point lookups of every key used agree with the map
+                        /\ \A i \in 1..Len(Ev.gets) :
+                              LET g == Ev.gets[i] IN
+                              IF g[1] \in DOMAIN abs THEN g[2] = 1 /\ g[3] = abs[g[1]] ELSE g[2] = 0
          \* everything unlinked was freed exactly once, nothing else: bytes held = reported memory use (C04)
          /\ CheckMem => Ev.held = Ev.mem /\ Ev.leaked = 0
+         \* C10: once all threads have quiesced the statistics are those of the radix tree
+         \* of the final key set, whatever the concurrent history was
+         /\ CheckShape =>
+              LET K == {Key8(Ev.keys[i]) : i \in 1..Len(Ev.keys)}
+                  sh == Shape!CanonShape(K)
+                  cnt == Shape!ShapeCounts(sh)
+              IN /\ Ev.st[1] = Len(Ev.keys)
+                 /\ <<Ev.st[2], Ev.st[3], Ev.st[4], Ev.st[5]>> = cnt
+                 /\ Ev.mem = Len(Ev.keys) * (Ev.leafbase + 8 + 2)
+                             + cnt[1] * Ev.sizes[1] + cnt[2] * Ev.sizes[2] + cnt[3] * Ev.sizes[3] + cnt[4] * Ev.sizes[4]
+                 /\ Ev.held = Ev.mem /\ Ev.leaked = 0
          \* no node or root lock left held (C14)
          /\ CheckLive => Ev.locked = 0
          /\ l' = l + 1 /\ UNCHANGED <<abs, pend, scan>>
